@@ -17,7 +17,7 @@ from __future__ import annotations
 import zlib
 from typing import Any, Dict, List, Optional, Tuple
 
-from harness.pdfwriter import Ref, Stream, ser, ser_indirect
+from harness.pdfwriter import Ref, Stream, ser
 
 
 class Rev:
@@ -58,6 +58,40 @@ class Plan:
         self.fill_gaps: List[int] = []      # numbers to list as free (filled by the generator)
 
 
+DELIMS = b"<[(/"
+
+
+def ser_object(n: int, o: Any, gen: int, eol: bytes, lay: Optional[Dict[str, Any]] = None) -> bytes:
+    """`n g obj … endobj` with a choice of valid physical shapes (all read the same):
+    compact        header, body and `endobj` on one line (`1 0 obj<<…>>endobj`)
+    endobj_same    `endobj` on the line of the body's end
+    endstream_eol  False: the stream data is directly followed by `endstream` (the EOL is only recommended)
+    skw_crlf       `stream` followed by CR LF instead of LF
+    length_ref     /Length given as an indirect reference to this object number
+    """
+    lay = lay or {}
+    compact = bool(lay.get("compact"))
+    head = b"%d %d obj" % (n, gen)
+    if isinstance(o, Stream):
+        d = dict(o.d)
+        if lay.get("length_ref") is not None:
+            d["Length"] = Ref(lay["length_ref"])
+        elif "Length" not in d:
+            d["Length"] = len(o.data)
+        skw = b"\r\n" if (eol == b"\r\n" or lay.get("skw_crlf")) else b"\n"
+        body = ser(d)
+        out = head + (b"" if compact else eol) + body + (b"" if compact else eol) + b"stream" + skw + o.data
+        out += (eol if lay.get("endstream_eol", True) else b"") + b"endstream"
+        out += (b" " if (compact or lay.get("endobj_same")) else eol) + b"endobj" + eol
+        return out
+    body = ser(o)
+    if compact:
+        sep = b"" if body[:1] in DELIMS else b" "
+        tail = b"" if body[-1:] in b">])" else b" "
+        return head + sep + body + tail + b"endobj" + eol
+    return head + eol + body + (b" " if lay.get("endobj_same") else eol) + b"endobj" + eol
+
+
 def runs(nums: List[int]) -> List[Tuple[int, int]]:
     out: List[Tuple[int, int]] = []
     for n in sorted(nums):
@@ -89,7 +123,8 @@ def png_up(data: bytes, cols: int) -> bytes:
 
 def write_history(revs: List[Rev], plans: List[Plan], eol: bytes = b"\n", entry_eol: bytes = b" \n",
                   gens: Optional[Dict[int, int]] = None, aux_base: Optional[int] = None,
-                  tail: str = "normal", header: bytes = b"%PDF-1.7") -> Tuple[bytes, Dict[str, Any]]:
+                  tail: str = "normal", header: bytes = b"%PDF-1.7",
+                  layouts: Optional[List[Dict[int, Dict[str, Any]]]] = None) -> Tuple[bytes, Dict[str, Any]]:
     """Returns (file bytes, layout)."""
     gens = gens or {}
     maxn = max(max(r.defs) for r in revs)
@@ -101,9 +136,11 @@ def write_history(revs: List[Rev], plans: List[Plan], eol: bytes = b"\n", entry_
     size = 0
     stream_eol = b"\r\n" if eol == b"\r\n" else b"\n"
 
-    def emit_obj(n: int, val: Any, gen: int, desc: Dict[str, Any]) -> int:
+    def emit_obj(n: int, val: Any, gen: int, desc: Dict[str, Any], lay: Optional[Dict[str, Any]] = None) -> int:
+        if lay and lay.get("comment"):
+            out.extend(b"% comment 1 0 R obj" + eol)      # a comment line between objects (never a cue: starts with %)
         pos = len(out)
-        out.extend(ser_indirect(n, val, gen, eol))
+        out.extend(ser_object(n, val, gen, eol, lay))
         d = {"pos": pos, "n": n, "gen": gen, "end": len(out) - len(eol)}
         d.update(desc)
         objects.append(d)
@@ -130,10 +167,28 @@ def write_history(revs: List[Rev], plans: List[Plan], eol: bytes = b"\n", entry_
             import random
             random.Random(plan.order_seed).shuffle(direct)
         offs: Dict[int, Tuple[int, int]] = {}           # objnum -> (pos, gen)
+        aux_nums: List[int] = []
+        lays = (layouts[k] if layouts and k < len(layouts) else {}) or {}
         for n in direct:
             g = gens.get(n, 0)
-            offs[n] = (emit_obj(n, rev.defs[n], g, {"kind": "plain", "val": rev.defs[n], "rev": k}), g)
-        aux_nums: List[int] = []
+            lay = dict(lays.get(n, {}))
+            later: Optional[Tuple[int, int]] = None
+            if lay.get("length_ref") and isinstance(rev.defs[n], Stream):
+                # /Length as a reference to an auxiliary integer object written before or after the stream
+                ln = aux
+                aux += 1
+                aux_nums.append(ln)
+                lay["length_ref"] = ln
+                lval = len(rev.defs[n].data)
+                if lay.get("length_first"):
+                    offs[ln] = (emit_obj(ln, lval, 0, {"kind": "lenobj", "val": lval, "rev": k}), 0)
+                else:
+                    later = (ln, lval)
+            else:
+                lay.pop("length_ref", None)
+            offs[n] = (emit_obj(n, rev.defs[n], g, {"kind": "plain", "val": rev.defs[n], "rev": k}, lay), g)
+            if later is not None:
+                offs[later[0]] = (emit_obj(later[0], later[1], 0, {"kind": "lenobj", "val": later[1], "rev": k}), 0)
         for c, g in containers:
             bodies = [ser(rev.defs[n]) for n in g]
             first_pairs = []
@@ -247,7 +302,7 @@ def write_history(revs: List[Rev], plans: List[Plan], eol: bytes = b"\n", entry_
             tpos = len(out)
             ent: Dict[int, Tuple[int, int, str]] = {}
             for n, (p, g) in offs.items():
-                if form == "hybrid" and not plan.containers_in_table and n in aux_nums:
+                if form == "hybrid" and not plan.containers_in_table and (n == xn or n in [c for c, _g in containers]):
                     continue
                 ent[n] = (p, g, "n")
             if form == "hybrid" and plan.f_for_hidden:
